@@ -104,6 +104,23 @@ func build(r *rand.Rand, n int) (*scenario, error) {
 		keep = append(keep, twin(op))
 		sc.plan[name] = "edited"
 	}
+	// a function that is renamed AND escalated (a goroutine, a further loop) in the same
+	// revision: paired by shape, listed with its risk score - which the summary must count
+	esc := func(name string, extra string) gen.Func {
+		return gen.Func{Name: name, Sig: gen.SigII, Exec: false, Tags: []string{"renamed-escalated"}, Text: fmt.Sprintf(`func %s(a int, b int) (res int) {
+	for i := 0; i < a&7; i++ {
+		tick()
+		res += h1(i, b)
+	}
+	res += h2(a, b)
+%s	return res
+}
+`, name, extra)}
+	}
+	base.Funcs = append(base.Funcs, esc("Proc0", ""))
+	keep = append(keep, esc("Aggr0", []string{"\tgo trace(res)\n", "\tfor j := 0; j < b&3; j++ {\n\t\tgo trace(j)\n\t}\n"}[r.Intn(2)]))
+	sc.plan["Proc0"] = "renamed"
+	sc.rename["Proc0"] = "Aggr0"
 	nf.Funcs = keep
 	sc.new = nf
 	return sc, nil
@@ -332,6 +349,16 @@ func run(res *evid.Result, idx int, root string) {
 	chk("renamed_functions", s.RenamedFunctions, counts[models.StatusRenamed])
 	chk("preserved", s.Preserved, counts[models.StatusPreserved])
 	chk("modified", s.Modified, counts[models.StatusModified]+counts[models.StatusRenamed])
+	// high_risk_changes: entries listed with a risk score at or above the documented
+	// threshold (models.RiskScoreHigh = 10, restated here)
+	nHigh := 0
+	for _, d := range out.Functions {
+		if d.RiskScore >= 10 {
+			nHigh++
+			res.Count("high_risk_entries:"+d.Status, 1)
+		}
+	}
+	chk("high_risk_changes", s.HighRiskChanges, nHigh)
 	res.Count("entries", len(out.Functions))
 	for st, c := range counts {
 		res.Count("status:"+st, c)
